@@ -154,6 +154,9 @@ def _liveness(b, desc):
   return bad
 
 
+_RAM = {}
+
+
 def run_scenario(sc):
   path, final = [c01._t(a) for a in sc['path']], c01._t(sc['final'])
   f = fs()
@@ -173,6 +176,27 @@ def run_scenario(sc):
   post = b.canon()
   vios, sims = [], {}
   kind = final[0]
+  # "call applied" is what the call means, not what this datastore happened to keep: the acknowledged state, read after a
+  # restart of the server on the file, must be the one the RAM datastore reaches by the same calls
+  if out[0] == 'OK':
+    b_ack = f.reopen()
+    acked = b_ack.canon()
+    if 'ram' not in _RAM:
+      _RAM['ram'] = svc.Backend('ram')
+      _RAM['empty'] = _RAM['ram'].snapshot()
+    rb = _RAM['ram']
+    rb.restore(_RAM['empty'])
+    rb.env.__init__()
+    svc.CLOCK.now = svc.BASE_T
+    for a in path:
+      svc.apply(rb, a)
+    ref = svc.apply(rb, final)
+    want = rb.canon()
+    if ref[0] == 'OK' and acked != want:
+      d0, d1 = dict(acked), dict(want)
+      vios.append({'sig': 'C05|acknowledged-effect-not-durable|%s|%s' % (kind, lifecycle.ServiceSystem.arg_class(final)),
+                   'desc': '%s returned OK; after a restart on the same file the stored %s differ from what the call means (RAM datastore, same calls)' % (kind, [x for x in d0 if d0[x] != d1.get(x)]),
+                   'case': {'path': sc['path'], 'final': sc['final'], 'k': -1}})
   client = final[2] if kind == 'SuggestTrials' else ''
   argc = lifecycle.ServiceSystem.arg_class(final)
   for k in range(n + 1):
